@@ -58,7 +58,7 @@ var allowInit = func(path string) bool {
 		return true
 	}
 	switch path {
-	case "io", "bytes", "errors", "encoding/binary", "context", "sort", "math/bits":
+	case "io", "bytes", "encoding/binary", "sort", "math/bits":
 		return true
 	}
 	return false
@@ -302,6 +302,10 @@ func runHarness(prog *ssa.Program, pkg *ssa.Package, f *ssa.Function, params map
 				o.Nondet = e.modelOf(strong, o.nd)
 			} else if r == "unsat" {
 				o.Msg += " [path infeasible under strong solver]"
+			} else {
+				o.Msg = o.Kind + " path: " + o.Msg + " [feasibility undecided: " + r + "]"
+				o.Kind = "unknown"
+				status = "inconclusive"
 			}
 			strong.Pop()
 		}
